@@ -45,7 +45,7 @@ theorem startSrc_log (cfg : Cfg) (src : Src) (ctx : Option Nat) (g : G) (h : Log
   | unit => exact h
   | sharedReady r => exact h
   | sharedContract p f => exact fun _ _ => ⟨h, trivial⟩
-  | sharedKept p f pre =>
+  | sharedKept e p f pre =>
     simp only [startSrc]
     cases hs : g.isSet p pre
     · exact fun _ _ => ⟨h, trivial⟩
@@ -70,7 +70,7 @@ theorem startLazy_log (cfg : Cfg) (src : Src) (ovr : Option Exec) (ctx : Option 
   | unit => simpa [startLazy] using startSrc_log cfg .unit ctx g h
   | sharedReady r => simpa [startLazy] using startSrc_log cfg (.sharedReady r) ctx g h
   | sharedContract p f => simpa [startLazy] using startSrc_log cfg (.sharedContract p f) ctx g h
-  | sharedKept p f pre => simpa [startLazy] using startSrc_log cfg (.sharedKept p f pre) ctx g h
+  | sharedKept e p f pre => simpa [startLazy] using startSrc_log cfg (.sharedKept e p f pre) ctx g h
 
 theorem asyncFinish_log (cfg : Cfg) (ty : Nat) (own : Exec) (k : List Step) (lazy : Bool) (ctx : Option Nat) (o : Out)
     (h : LogOut cfg o) : LogOut cfg (asyncFinish ty own k lazy ctx o) := by
